@@ -56,8 +56,9 @@ func checkC02(c *Ctx) {
 	}
 	st := bidx(c, "B-IDX", fs, exempt)
 	c.Notes = append(c.Notes, fmt.Sprintf("B-IDX: %d sites, %d discharged by the compiler prove pass, %d by LinBounds, %d not proven", st.sites, st.compiler, st.lin, st.unproved))
-	c.MinSites("B-IDX", 60)
+	c.MinSites("B-IDX", 30) // about half of today's sites: a simplification may legitimately remove some
 	c03IsOnCurve(c, "P-C03-formulas")
+	fixedWidthHashed(c, "P-WIDTH-hash")
 }
 
 func findCall(f *ssa.Function, name string) *ssa.Call {
@@ -206,7 +207,7 @@ func c02Encrypt(c *Ctx) {
 		}
 	}
 	if !okX {
-		c.Violated("K-C02-encrypt", fn, "C2 = M xor KDF stream", "no loop xoring every plaintext byte into the key stream at offset 96 of C1||C3||T was found", f.Pos())
+		c.Undecided("K-C02-encrypt", fn, "C2 = M xor KDF stream", "no loop xoring every plaintext byte into the key stream at offset 96 of C1||C3||T was found", f.Pos())
 	}
 	// the xor loop must execute before every successful return (dominates them)
 	// nonce per attempt + retry on all-zero stream + reader error
@@ -318,6 +319,8 @@ func c02Decrypt(c *Ctx) {
 	// the normalised ciphertext: a []byte phi whose edges are data[1:] or the C1C2C3 reordering
 	D := "slice(data,0x1,_)"
 	reorder := "concat(copyN(0x40,slice(" + D + ",_,0x40)),copyN(0x20,slice(" + D + ",sub(len(" + D + "),0x20),_)),copyN(sub(len(" + D + "),0x60),slice(" + D + ",0x40,sub(len(" + D + "),0x20))))"
+	// the same reordering without the intermediate private copies (appending the sub-slices directly)
+	reorderPlain := "concat(slice(" + D + ",_,0x40),slice(" + D + ",sub(len(" + D + "),0x20),_),slice(" + D + ",0x40,sub(len(" + D + "),0x20)))"
 	var ct *ssa.Phi
 	instrsOf(f, func(_ *ssa.BasicBlock, in ssa.Instruction) {
 		phi, ok := in.(*ssa.Phi)
@@ -327,11 +330,11 @@ func c02Decrypt(c *Ctx) {
 		nD, nR, other := 0, 0, 0
 		for i, e := range phi.Edges {
 			pred := phi.Block().Preds[i]
-			s := be.bytesOf(e, pred.Instrs[len(pred.Instrs)-1]).String()
+			s := stripCopies(be.bytesOf(e, pred.Instrs[len(pred.Instrs)-1])).String()
 			switch s {
 			case D:
 				nD++
-			case reorder:
+			case reorder, reorderPlain:
 				nR++
 			default:
 				other++
@@ -394,7 +397,7 @@ func c02Decrypt(c *Ctx) {
 		}
 	}
 	if !okX {
-		c.Violated("K-C02-decrypt", fn, "M' = C2 xor KDF stream", "no loop xoring CT[96+i] into the key stream was found", f.Pos())
+		c.Undecided("K-C02-decrypt", fn, "M' = C2 xor KDF stream", "no loop xoring CT[96+i] into the key stream was found", f.Pos())
 	}
 	// C3 comparison
 	var c3 []Atom
@@ -469,7 +472,7 @@ func c02KDF(c *Ctx) {
 		}
 	}
 	if iPhi == nil {
-		c.Violated("K-C02-kdf", fn, "ceil(length/32) blocks", "no loop `for i < (length+31)/32` found", f.Pos())
+		c.Undecided("K-C02-kdf", fn, "ceil(length/32) blocks", "no loop `for i < (length+31)/32` found", f.Pos())
 		return
 	}
 	iv, _ := inductionOf(iPhi)
